@@ -2,14 +2,18 @@
 (* Constant values shared by the bounded instances and the trace instance of Process. *)
 (* The two models and the two blocks are the ones harness/checks/c17.py builds:       *)
 (*   SIM  sfc_models.gl_book.chapter3.SIM('C'): the constructor makes model, country  *)
-(*        and currency zone (3 ids), build_model() the six sectors                    *)
-(*   TWO  a two-sector model whose sectors ask for each other's variable names        *)
-(*        before main(), so the placeholders `_<ID>__P`, `_<ID>__Q` are embedded       *)
+(*        and currency zone (3 ids); the six sectors of SIM.build_model() are created *)
+(*        in two parts (GOV HH BUS | TF LAB GOOD + hh.AddInitialCondition by id)      *)
+(*   TWO  a two-sector model (AA | BB) whose sectors ask for each other's variable    *)
+(*        names before main(), so placeholders `_<ID>__P`, `_<ID>__Q`, `_<ID>__PAY`   *)
+(*        are embedded; BB has an initial condition booked by sector id and an income *)
+(*        exclusion (matched by id)                                                   *)
 (*   A    block without user function;  B  block that calls the user function f       *)
 EXTENDS Integers, Sequences
 
 MC_Models  == {"SIM", "TWO"}
 MC_Blocks  == {"A", "B"}
+MC_Solvers0 == {}
 MC_Solvers1 == {"s1"}
 MC_Solvers2 == {"s1", "s2"}
 MC_LogNames == {"log", "eqn", "timeseries", "step", "steadystate_0"}
@@ -17,20 +21,22 @@ MC_Trace2 == {0, 1}
 MC_Trace3 == {0, 1, 3}
 
 MC_Shape ==
-    [SIM |-> [newIds |-> 3, declPre |-> 0, horizon |-> 2,
+    [SIM |-> [newIds |-> 3, headPre |-> 0, headSectors |-> 3, horizon |-> 2,
               sectors |-> << "GOV", "HH", "BUS", "TF", "LAB", "GOOD" >>,   \* one country: full code = sector code
               asks |-> {},
+              byId |-> { << 2, "F" >>, << 2, "DEM_GOOD" >> },      \* hh.AddInitialCondition('F', ..); Household's income exclusion
               own |-> {"BUS__DEM_LAB", "BUS__F", "BUS__INC", "BUS__LAG_F", "BUS__PROF", "BUS__SUP_GOOD",
                        "GOOD__DEM_GOOD", "GOOD__SUP_BUS", "GOOD__SUP_GOOD", "GOV__DEM_GOOD", "GOV__F",
                        "GOV__FISC_BAL", "GOV__INC", "GOV__LAG_F", "GOV__PRIM_BAL", "GOV__T", "HH__AfterTax",
                        "HH__AlphaFin", "HH__AlphaIncome", "HH__DEM_GOOD", "HH__F", "HH__INC", "HH__LAG_F",
                        "HH__SUP_LAB", "HH__T", "LAB__DEM_LAB", "LAB__SUP_HH", "LAB__SUP_LAB", "TF__T",
                        "TF__TaxRate", "t"}],
-     TWO |-> [newIds |-> 1, declPre |-> 2, horizon |-> 6,
+     TWO |-> [newIds |-> 1, headPre |-> 2, headSectors |-> 1, horizon |-> 6,
               sectors |-> << "AA", "BB" >>,
-              asks |-> { << 1, "P" >>, << 2, "Q" >> },
-              own |-> {"AA__F", "AA__INC", "AA__LAG_F", "AA__LAG_P", "AA__P", "AA__S", "AA__Z",
-                       "BB__F", "BB__INC", "BB__LAG_F", "BB__Q", "BB__R", "t"}]]
+              asks |-> { << 1, "P" >>, << 2, "Q" >>, << 2, "PAY" >> },
+              byId |-> { << 2, "F" >>, << 2, "PAY" >> },           \* b.AddInitialCondition('F', ..); exclusion of b's PAY
+              own |-> {"AA__F", "AA__INC", "AA__LAG_F", "AA__LAG_P", "AA__P", "AA__PAY", "AA__S", "AA__Z",
+                       "BB__F", "BB__INC", "BB__LAG_F", "BB__PAY", "BB__Q", "BB__R", "t"}]]
 
 MC_BlockInfo ==
     [A |-> [vars |-> {"LAG_x", "a", "g", "t", "x", "y"}, early |-> {"g"}, func |-> FALSE, horizon |-> 4],
